@@ -292,7 +292,22 @@ def run(ctx):
   ctx.extra.update(exact_cases=len(cases), exact_cases_with_velocity=moving)
   rr = core.rng(ctx, 22)
   rel = []
-  for c in c01.relational_cases(ctx, 'c02-rel', 5, 12 if q else 300, seed_off=23):
+  relc = c01.relational_cases(ctx, 'c02-rel', 6, 14 if q else 300, seed_off=23)
+  # deep serial chains (every link the child of the previous one): ancestors many levels up contribute to M
+  deep = []
+  for c in c01.relational_cases(ctx, 'c02-deep', 6, 60 if q else 400, seed_off=24):
+    n = len(c['model']['links'])
+    if n == 6 and all(l['root'] != 'free' for l in c['model']['links'][1:]):
+      nv6 = render.structure(c['model'])[1]
+      c = {**c, 'grav': [0.0, 0.0, -9.81], 'tau': [0.0] * nv6, 'acts': None}
+      m2 = json.loads(json.dumps(c['model']))
+      for k, l in enumerate(m2['links']):
+        l['parent'] = k
+      deep.append({**c, 'model': m2})
+      if len(deep) >= (2 if q else 30):
+        break
+  ctx.extra['deep_chain_cases'] = len(deep)
+  for c in relc + deep:
     nq, nv, _, _ = render.structure(c['model'])
     c['grav'] = [0.0, 0.0, -9.81] if rr.random() < 0.5 else [rr.uniform(-5, 5) for _ in range(3)]
     tau = []
